@@ -331,3 +331,134 @@ impl RelatedEntities {
 }
 
 use crate::shared::replication::replication_registry::FnsId;
+
+// -------------------------------------------------------------------------------------------
+// Fake `ServerWorld` and registry for `collect_changes`
+//
+// Contract assumed: the world consists of the listed replicated archetypes; every entity of an
+// archetype owns the marker and exactly the components of `replicated.components`; component
+// pointer and change ticks returned for (entity, component) are those of that entity. Component
+// values are single bytes; serialization writes the fns id and the value byte (the real
+// `ComponentFns`/`RuleFns` vtables and reflection are outside).
+
+use ::bevy::ecs::component::ComponentTicks;
+use ::bevy::ecs::storage::TableId;
+
+pub struct FakeComponent {
+    pub value: u8,
+    pub ticks: ComponentTicks,
+}
+
+pub struct FakeEntity {
+    pub id: Entity,
+    pub marker_ticks: ComponentTicks,
+    /// Parallel to `ReplicatedArchetype::components` of its archetype.
+    pub components: Vec<FakeComponent>,
+}
+
+impl FakeEntity {
+    pub fn id(&self) -> Entity {
+        self.id
+    }
+}
+
+pub struct ReplicatedArchetype {
+    pub components: Vec<(ComponentRule, StorageType)>,
+}
+
+pub struct FakeArchetype {
+    pub entities: Vec<FakeEntity>,
+    pub replicated: ReplicatedArchetype,
+}
+
+impl FakeArchetype {
+    pub fn entities(&self) -> &[FakeEntity] {
+        &self.entities
+    }
+
+    pub fn table_id(&self) -> TableId {
+        TableId::from_u32(0)
+    }
+}
+
+pub struct ServerWorld {
+    pub archetypes: Vec<FakeArchetype>,
+}
+
+pub const MARKER_ID: usize = 1000;
+static MARKER_VALUE: u8 = 0;
+
+impl ServerWorld {
+    pub fn iter_archetypes(&self) -> impl Iterator<Item = (&FakeArchetype, &ReplicatedArchetype)> {
+        self.archetypes.iter().map(|archetype| (archetype, &archetype.replicated))
+    }
+
+    pub fn marker_id(&self) -> ComponentId {
+        ComponentId::new(MARKER_ID)
+    }
+
+    /// # Safety
+    /// None required for the fake; kept `unsafe` to match the call sites.
+    pub unsafe fn get_component_unchecked<'w>(
+        &'w self,
+        entity: &'w FakeEntity,
+        _table_id: TableId,
+        _storage: StorageType,
+        component_id: ComponentId,
+    ) -> (Ptr<'w>, ComponentTicks) {
+        if component_id.index() == MARKER_ID {
+            return (Ptr::from(&MARKER_VALUE), entity.marker_ticks);
+        }
+        // component ids are the positions in the archetype's component list
+        let component = &entity.components[component_id.index()];
+        (Ptr::from(&component.value), component.ticks)
+    }
+}
+
+pub struct ComponentFns;
+pub struct UntypedRuleFns;
+pub struct AppTypeRegistry;
+
+pub struct SerializeCtx<'a> {
+    pub component_id: ComponentId,
+    pub server_tick: RepliconTick,
+    pub type_registry: &'a AppTypeRegistry,
+}
+
+/// Fake registry: the fns id of a rule is the component's position; `get` hands back the id.
+pub struct ReplicationRegistry;
+
+static FAKE_COMPONENT_FNS: ComponentFns = ComponentFns;
+static FAKE_RULE_FNS: UntypedRuleFns = UntypedRuleFns;
+
+impl ReplicationRegistry {
+    pub fn get(&self, fns_id: FnsId) -> (ComponentId, &ComponentFns, &UntypedRuleFns) {
+        let mut bytes = [0u8; 4];
+        let index = postcard::to_slice(&fns_id, &mut bytes).unwrap()[0] as usize;
+        (ComponentId::new(index), &FAKE_COMPONENT_FNS, &FAKE_RULE_FNS)
+    }
+}
+
+/// Stand-in for `write_component_cached` + `SerializedData::write_component`: writes the fns id
+/// and the single value byte, with the same per-entity caching of the range.
+pub fn write_component_cached(
+    component_range: &mut Option<Range<usize>>,
+    serialized: &mut SerializedData,
+    _rule_fns: &UntypedRuleFns,
+    _component_fns: &ComponentFns,
+    _ctx: &SerializeCtx,
+    component_rule: ComponentRule,
+    component: Ptr<'_>,
+) -> Result<Range<usize>> {
+    if let Some(component_range) = component_range.clone() {
+        return Ok(component_range);
+    }
+    let start = serialized.len();
+    postcard_utils::to_extend_mut(&component_rule.fns_id, &mut **serialized)?;
+    // SAFETY: fake components are single bytes.
+    let value = unsafe { *component.deref::<u8>() };
+    serialized.push(value);
+    let range = start..serialized.len();
+    *component_range = Some(range.clone());
+    Ok(range)
+}
